@@ -383,10 +383,36 @@ func runChain(r *harness.Run, c chainCase) error {
 		}
 		return out, nil
 	}
+	// a provider that answers with more than it was asked for: the requested events plus their whole auth chains
+	// (what /event_auth returns); the verdict must not depend on it
+	eager := func(v gmsl.RoomVersion, ids []string) ([]gmsl.PDU, error) {
+		var out []gmsl.PDU
+		done := map[string]bool{}
+		var add func(id string)
+		add = func(id string) {
+			if p, ok := pdus[id]; ok && !missing[id] && !done[id] {
+				done[id] = true
+				out = append(out, p)
+				for _, a := range p.AuthEventIDs() {
+					add(a)
+				}
+			}
+		}
+		for _, id := range ids {
+			add(id)
+		}
+		return out, nil
+	}
 	target := pdus[real[byNick[c.Target].ID].ID]
-	var got error
+	var got, gotEager error
 	if p, msg := harness.Try(func() { got = gmsl.VerifyEventAuthChain(context.Background(), target, provider, fedgen.UID) }); p {
 		return fmt.Errorf("VerifyEventAuthChain panics: %s", msg)
+	}
+	if p, msg := harness.Try(func() { gotEager = gmsl.VerifyEventAuthChain(context.Background(), target, eager, fedgen.UID) }); p {
+		return fmt.Errorf("VerifyEventAuthChain panics with a provider that returns whole auth chains: %s", msg)
+	}
+	if (got == nil) != (gotEager == nil) {
+		return fmt.Errorf("chain faults %v, target %s: VerifyEventAuthChain accepted=%v with a provider returning exactly what was asked, accepted=%v (%v) when the provider also returns the requested events' auth chains", c.Fault, c.Target, got == nil, gotEager == nil, gotEager)
 	}
 	// oracle: the target and, recursively, every fetched auth event is allowed by its (available) auth events
 	ok := true
@@ -441,7 +467,9 @@ func runChain(r *harness.Run, c chainCase) error {
 				sp.pdus[id] = p
 			}
 			var serr error
-			if p, msg := harness.Try(func() { serr = gmsl.VerifyAuthRulesAtState(context.Background(), sp, target, allowValidation, fedgen.UID) }); p {
+			if p, msg := harness.Try(func() {
+				serr = gmsl.VerifyAuthRulesAtState(context.Background(), sp, target, allowValidation, fedgen.UID)
+			}); p {
 				return fmt.Errorf("VerifyAuthRulesAtState panics: %s", msg)
 			}
 			all := true
@@ -686,7 +714,7 @@ func (b *backfiller) ProvideEvents(v gmsl.RoomVersion, ids []string) ([]gmsl.PDU
 func main() { harness.Main("C14", "fault_enumeration", run) }
 
 func run(r *harness.Run) {
-	r.Rule("federation responses built from a generated room (create, creator join, power levels, join rules, two joins, a topic) with hash-derived event IDs and reference signatures, room versions 1 and 10: every single and every pair of per-event faults {bad signature, not allowed by its own auth events, auth event missing from the response, wrong room, no state key, duplicate state key, malformed JSON, listed in both lists} x event-provider behaviour {returns event, returns nothing, errors} through CheckStateResponse and CheckSendJoinResponse; VerifyEventAuthChain / VerifyAuthRulesAtState with a missing or disallowed event at every depth x state contents x allowValidation; LoadAndVerify / RequestBackfill on every batch of <= 3 inputs over events x {intact, bad signature, disallowed, malformed, listed twice}. Oracle recomputed per event from already-checked parts (VerifyEventSignatures, Allowed on an independently assembled auth set).")
+	r.Rule("federation responses built from a generated room (create, creator join, power levels, join rules, two joins, a topic) with hash-derived event IDs and reference signatures, room versions 1 and 10: every single and every pair of per-event faults {bad signature, not allowed by its own auth events, auth event missing from the response, wrong room, no state key, duplicate state key, malformed JSON, listed in both lists} x event-provider behaviour {returns event, returns nothing, errors} through CheckStateResponse and CheckSendJoinResponse; VerifyEventAuthChain (with a provider returning exactly the requested events, and one returning their whole auth chains) / VerifyAuthRulesAtState with a missing or disallowed event at every depth x state contents x allowValidation; LoadAndVerify / RequestBackfill on every batch of <= 3 inputs over events x {intact, bad signature, disallowed, malformed, listed twice}. Oracle recomputed per event from already-checked parts (VerifyEventSignatures, Allowed on an independently assembled auth set).")
 	r.Assume("VerifyEventSignatures and Allowed are used as sub-oracles (their own properties are C06 / C07)", "RequestBackfill keeping events whose only failure is the signature check is documented library behaviour")
 	r.OnReplay("resp", func(raw json.RawMessage) error {
 		var c respCase
